@@ -622,6 +622,14 @@ def stepLine (st : St) (raw : String) : St × List String :=
     if toks.headD "" == "ls" then
       let v := sizeVsFiles st implS
       ({ st with specViol := st.specViol + v.length }, msgs0 ++ v)
+    else if toks.headD "" == "raw-send" then
+      -- C13: a frame that is not a valid request is answered with an error status, a closed
+      -- connection, or silence (the server is waiting for the rest of a declared length)
+      let kind := (implS.splitOn " ").headD ""
+      let st := { st with cov := bump st.cov ("raw:" ++ (if kind == "resp" then (if (implS.splitOn " ").getD 1 "" == "0" then "resp-ok" else "resp-error") else kind)) }
+      -- a panic of the connection task closes that connection: allowed ("error or a closed connection")
+      if kind == "resp" || kind == "closed" || kind == "timeout" || kind == "panic" then (st, msgs0)
+      else ({ st with specViol := st.specViol + 1 }, msgs0 ++ [s!"SPEC-VIOL {st.line} class=malformed-frame-effect impl={implS}"])
     else if toks.headD "" == "restart-key" then
       -- C19: with another key (or encryption switched on/off) the journal cannot be read: the server
       -- must report that instead of starting with whatever it can make of the data
